@@ -80,6 +80,10 @@ FLOORS = {
                               "get_source_found": 58000, "rejected_parent_reference": 490000,
                               "get_template_calls": 87000, "compositions": 6000,
                               "compose_lookups": 1390000, "compose_found": 178000,
+                              "compose_found_empty_template": 29000,
+                              "compose_function_loader_leaves": 5000,
+                              "dyn_found_empty_template": 78000,
+                              "dyn_steps_on_function_leaf": 17000,
                               "compose_notfound": 1200000, "pairs_5_segments": 1200000,
                               "dyn_compositions": 4800, "dyn_steps": 42000, "dyn_lookups": 500000,
                               "dyn_found": 360000, "dyn_moved_to_other_loader": 7000,
